@@ -343,8 +343,24 @@ def build_ops():
         ops.append(Op('remove_tagged_%d' % tag, lambda w, m: True, mk(tag)))
 
     # -- extract_particles --------------------------------------------------
+    def scribble(pa):
+        """Overwrites every constant and property of an array derived from
+        another one (clone, extraction, copy): the array it was derived from
+        is compared with its model after the transition, so shared storage
+        shows up as a change nobody asked for."""
+        for cn in pa.constants:
+            a = pa.constants[cn].get_npy_array()
+            a[:] = a + 17
+        for pn in pa.properties:
+            if pn in ('tag', 'pid', 'gid'):
+                continue
+            a = pa.properties[pn].get_npy_array()
+            if len(a):
+                a[:] = a + 3
+
     def check_new(pa, mm, who):
         compare(pa, mm, True, who)
+        scribble(pa)
 
     @op('extract_first_new_allprops', enabled=lambda w, m: nA(w, m) >= 1)
     def _(w, m, k):
@@ -549,6 +565,7 @@ def build_ops():
         mm = M.copy()
         mm.recs = []
         compare(c, mm, True, 'empty_clone')
+        scribble(c)
 
     @op('empty_clone_subset_check', enabled=lambda w, m: 'x' in m[0].meta)
     def _(w, m, k):
@@ -561,6 +578,7 @@ def build_ops():
             mm.meta[p] = list(M.meta[p])
         mm.output = [p for p in M.output if p in props]
         compare(c, mm, True, 'empty_clone(props)')
+        scribble(c)
 
     @op('ensure_properties_from_B')
     def _(w, m, k):
@@ -652,6 +670,16 @@ def build_ops():
     def _(w, m, k):
         w[0].add_output_arrays(['i'])
         m[0].output = sorted(set(m[0].output) | {'i'})
+
+    @op('shallow_copy_check', aligns=False)
+    def _(w, m, k):
+        import copy
+        A, M = w[0], m[0]
+        c = copy.copy(A)
+        mm = M.copy()
+        mm.output = []
+        compare(c, mm, False, 'copy.copy')
+        scribble(c)
 
     @op('pickle_roundtrip', aligns=False)
     def _(w, m, k):
